@@ -357,6 +357,44 @@ def check_psd(sp):
     return res, n
 
 
+def check_weighted(sp):
+    """Array-valued parameters (per-element weights / thresholds / bounds): the elementwise closed forms in exact rationals;
+    every object is called several times with different alpha (nothing a call leaves behind may influence the next one) and
+    the caller's parameter arrays must stay untouched."""
+    from fractions import Fraction as Fr
+
+    res, n = [], 0
+    ys = [Fr(3), Fr(-1, 2), Fr(0), Fr(5, 4), Fr(-7, 3), Fr(1)]
+    ws = [Fr(1), Fr(2), Fr(1, 2), Fr(0), Fr(3), Fr(1, 4)]
+    soft = lambda v, t: (v - t if v > t else (v + t if v < -t else Fr(0)))
+    for cplx in (False, True):
+        for shape in ([6], [2, 3], [3, 1, 2]):
+            yv = np.array([float(v) for v in ys]).reshape(shape) * ((0.6 + 0.8j) if cplx else 1.0)
+            lam = np.array([float(v) for v in ws]).reshape(shape)
+            lam0 = lam.copy()
+            cases = [("L1Reg(array lamda)", lambda: sp.prox.L1Reg(shape, lam), lambda al: [soft(v, al * w) for v, w in zip(ys, ws)]),
+                     ("Conj(L1Reg(array lamda))", lambda: sp.prox.Conj(sp.prox.L1Reg(shape, lam)), lambda al: [v - soft(v, w) for v, w in zip(ys, ws)])]
+            for name, mk, closed in cases:
+                P = mk()
+                for al in (Fr(1, 2), Fr(1, 2), Fr(3), Fr(1)):       # the same object, repeatedly, with different steps
+                    n += 1
+                    y0 = yv.copy()
+                    try:
+                        x = P(float(al), yv)
+                    except Exception as ex:
+                        res.append((["C11"], "exception", "%s shape %s raised %r" % (name, shape, ex)))
+                        break
+                    exp = np.array([float(v) for v in closed(al)]).reshape(shape) * ((0.6 + 0.8j) if cplx else 1.0)
+                    if np.shape(x) != tuple(shape) or not np.allclose(x, exp, atol=1e-12):
+                        res.append((["C11"], "value", "%s shape %s %s alpha=%s (object re-used): got %s, minimiser %s" % (name, shape, "complex" if cplx else "real", al, np.asarray(x).ravel()[:6], exp.ravel()[:6])))
+                    if not np.array_equal(yv, y0):
+                        res.append((["C02", "C11"], "input_mutated", "%s modified its input" % name))
+                    if not np.array_equal(lam, lam0):
+                        res.append((["C02", "C11"], "captured_mutated", "%s modified the weight array it was built from" % name))
+                        lam[...] = lam0
+    return res, n
+
+
 def run(ctx):
     import sigpy as sp
 
@@ -390,6 +428,9 @@ def run(ctx):
         if len(r.samples) < 5 and n % 2500 == 1:
             r.samples.append({"expr": sm, "alpha": str(fr(st["alpha"])), "y": [str(cval(c)) for c in st["y"]], "minimiser": [str(cval(c)) for c in st["out"]]})
     pres, npsd = check_psd(sp)
+    wres, nw = check_weighted(sp)
+    pres = pres + wres
+    npsd += nw
     for props, kind, detail in pres:
         r.violations.append(core.Violation(props, "prox", {"kind": kind, "top": "PsdProj", "classes": ["PsdProj"]}, detail, {}))
     r.traces = n + npsd
